@@ -92,7 +92,7 @@ func (x *Exec) finish(st *State, fr *Frame, retTo ssa.Value, res Val, deferred b
 		fr.regs[retTo] = res
 		if call, ok := retTo.(*ssa.Call); ok {
 			if _, anns := x.siteAnns(st, fr, call.Call.Pos()); len(anns) > 0 {
-				env := x.siteEnv(st, fr, call.Call.Pos())
+				env := x.siteEnvCall(st, fr, &call.Call)
 				if res != nil {
 					env.vars["result"] = res
 					if tv, isT := res.(TupleV); isT {
@@ -477,6 +477,10 @@ func (x *Exec) namedType(name string) types.Type {
 
 // havocLoc forgets the value of one modifies-location in the callee's environment.
 func (x *Exec) havocLoc(st *State, env *specEnv, loc string, c *Contract) {
+	if loc == "heap" {
+		st.havocAll()
+		return
+	}
 	if loc == "*" {
 		st.havocAll()
 		for _, g := range x.specs.Ghosts {
